@@ -163,6 +163,12 @@ func (l *localFS) Put(ctx context.Context, key string, source io.Reader, exclusi
 		l.rw.Lock()
 		defer l.rw.Unlock()
 	}
+	// directories hold no object: what is left of keys deleted earlier must not stand in the way of this key
+	if fi, e := l.fs.Stat(key); e == nil && fi.IsDir() {
+		if e = l.removeEmptyDirs(key); e != nil {
+			return fmt.Errorf("clearing empty directories at %q: %v", key, e)
+		}
+	}
 	// TODO: Change this implementation to use rename to put file into place.
 	dir := filepath.Dir(key)
 	if dir != "" {
@@ -237,6 +243,31 @@ func (l *localFS) Put(ctx context.Context, key string, source io.Reader, exclusi
 		}
 	}
 
+	return nil
+}
+
+// removeEmptyDirs removes a tree of directories that holds no file. Directories are removed one by one, deepest
+// first, so that nothing but empty directories can ever be removed.
+func (l *localFS) removeEmptyDirs(root string) error {
+	var dirs []string
+	err := afero.Walk(l.fs, root, func(pth string, info os.FileInfo, err error) error {
+		if err != nil {
+			return err
+		}
+		if !info.IsDir() {
+			return fmt.Errorf("%q is a prefix of the key %q", root, pth)
+		}
+		dirs = append(dirs, pth)
+		return nil
+	})
+	if err != nil {
+		return err
+	}
+	for i := len(dirs) - 1; i >= 0; i-- {
+		if err = l.fs.Remove(dirs[i]); err != nil {
+			return err
+		}
+	}
 	return nil
 }
 
